@@ -155,14 +155,12 @@ class ModbusSocketFramer(ModbusFramer):
                         _logger.debug("Not a valid unit id - {}, "
                                       "ignoring!!".format(self._header['uid']))
                         self.resetFrame()
-                else:
-                    _logger.debug("Frame check failed, ignoring!!")
-                    self.resetFrame()
+                elif self._header['len'] >= 2:
+                    # the frame is not complete yet: keep what we have
+                    # and wait for the rest of it
+                    break
             else:
-                if len(self._buffer):
-                    # Possible error ???
-                    if self._header['len'] < 2:
-                        self._process(callback, error=True)
+                # not even a complete header yet: wait for more data
                 break
 
     def _process(self, callback, error=False):
